@@ -307,6 +307,7 @@ class FakeNode(object):
             entry['use'] = ks
             self.log.append(entry)
             err = self.use_errors.pop(0) if self.use_errors else None
+            entry['behaviour_use_error'] = err
             if err == 'drop':
                 nc.outstanding[s] = 'use'
                 return
